@@ -117,8 +117,8 @@ def observe(w: dict, base: list, before_obj) -> dict:
 def _exc(exc: BaseException) -> dict:
     try:
         text = str(exc)
-    except BaseException as inner:  # noqa: BLE001
-        text = f"<str() raised {type(inner).__name__}>"
+    except BaseException:  # noqa: BLE001
+        text = ""  # unprintable: no text can be expected in a report
     return {"cls": type(exc).__name__, "mro": [c.__name__ for c in type(exc).__mro__], "text": text}
 
 
